@@ -202,7 +202,71 @@ func checkC18(p *Prog, rp *Report) {
 
 	c18Xor(p, rp)
 	c18Env(p, rp, reachList)
+	c18Hostile(p, np)
 	c18StateFamily(p)
+}
+
+// c18Hostile: "typed-document parsers return normally" also when the document uses the Go names of struct fields
+// as field names — of the document type itself and of every struct type nested in it, exported or not. A decoder
+// that walks into nested structs by Go name would try to set an unexported field and panic.
+func c18Hostile(p *Prog, np *Rule) {
+	for _, dt := range [][2]string{{"control", "DSC"}, {"control", "Changes"}, {"control", "BinaryIndex"}, {"control", "SourceIndex"}, {"control", "SourceParagraph"}, {"control", "BinaryParagraph"}, {"deb", "Control"}} {
+		n := p.Named(dt[0], dt[1])
+		if n == nil {
+			continue
+		}
+		names := map[string]bool{}
+		var walk func(t types.Type, depth int)
+		walk = func(t types.Type, depth int) {
+			if depth > 4 {
+				return
+			}
+			switch u := t.Underlying().(type) {
+			case *types.Struct:
+				for i := 0; i < u.NumFields(); i++ {
+					names[u.Field(i).Name()] = true
+					walk(u.Field(i).Type(), depth+1)
+				}
+			case *types.Slice:
+				walk(u.Elem(), depth+1)
+			case *types.Pointer:
+				walk(u.Elem(), depth+1)
+			case *types.Array:
+				walk(u.Elem(), depth+1)
+			}
+		}
+		walk(n, 0)
+		var keys []string
+		for k := range names {
+			if k != "" && k != "_" {
+				keys = append(keys, k)
+			}
+		}
+		sort.Strings(keys)
+		key := dt[0] + "." + dt[1] + ":go-field-names-as-keys"
+		// one name at a time (an error on another field would hide it), alone and after a few ordinary fields
+		base := "Format: 3.0 (quilt)\nSource: hello\nPackage: hello\nVersion: 0:2.10-1\nArchitecture: amd64\nMaintainer: Jane Doe <jane@example.org>\n"
+		bad := false
+	keys:
+		for _, k := range keys {
+			for _, doc := range []string{k + ": yes\n", base + k + ": yes\n", base + k + ": 1\n"} {
+				_, _, why := newC09Run(p).unmarshal(n, doc)
+				if strings.HasPrefix(why, "PANIC") {
+					np.bad(key, p.Pos(n.Obj().Pos()), fmt.Sprintf("the paragraph %q (a field named like the Go field %s of the type or of a struct nested in it) makes the decoder panic: %s", doc, k, strings.TrimPrefix(why, "PANIC: ")), nil)
+					bad = true
+					break keys
+				}
+				if why != "" {
+					np.undecided(key, p.Pos(n.Obj().Pos()), why)
+					bad = true
+					break keys
+				}
+			}
+		}
+		if !bad {
+			np.ok(key, p.Pos(n.Obj().Pos()), fmt.Sprintf("%d paragraphs, each with one of the %d Go field names of the type and its nested structs as a field name (alone, and after ordinary fields): decoded or rejected, no panic state", 3*len(keys), len(keys)))
+		}
+	}
 }
 
 // c18Env: "the outcome depends only on the input": nothing reachable from the parsers consults the process
